@@ -91,7 +91,18 @@ def run_models(ctx):
     return progs, stats, confirms
 
 
-def features(e):
+def features(e, clause):
+    f = features0(e)
+    if clause in ("alloc_proportional", "prim_alloc_proportional"):
+        # one cause whether the attempt died (address-space limit) or went through
+        f["cause"] = "unbounded_alloc"
+        if f["fam"] == "body":
+            f["panic_site"] = f["site"]
+            f["site"] = e.get("asite") if e.get("asite") not in (None, "-") else f["site"]
+    return f
+
+
+def features0(e):
     if e.get("ev") == "pstep":
         f = {"fam": "prog", "prim": e["op"], "cls": e["cls"], "res": e["res"], "cause": e["cause"] if e["cause"] != "-" else e["res"],
              "site": e["site"], "len": e["len"], "off0": e["off0"], "off": e["off"], "ret": e["ret"], "retc": e["retc"],
@@ -153,7 +164,7 @@ def run(ctx):
         e = events.get((v["trace"], v["index"]), {})
         if v["clause"] == "unclassified_result":
             raise vlib.Inconclusive("harness recorded a result the observer does not know: %s" % json.dumps(e)[:400])
-        v["features"] = features(e)
+        v["features"] = features(e, v["clause"])
         per_clause[v["clause"]] = per_clause.get(v["clause"], 0) + 1
         viols.append(v)
     vfile = os.path.join(ctx.scratch, "violations.ndjson")
